@@ -87,6 +87,20 @@ Theorem C12_rejects_duplicate : forall ds d, d_type d = ds_type ds -> In (d_id d
 Proof. exact rejects_duplicate. Qed.
 Print Assumptions C12_rejects_duplicate.
 
+(* several delegations in ONE add_delegations call: a repeated id (against the container or inside the call) is
+   rejected; without repetition all are added, in order *)
+Theorem C12_rejects_duplicate_in_batch : forall args ds, Forall (fun d => d_type d = ds_type ds) args ->
+  NoDup (map d_id (ds_items ds)) -> ~ NoDup (map d_id (ds_items ds ++ args)) ->
+  snd (add_delegations ds args) = Some EDelegation.
+Proof. exact batch_rejects_duplicate. Qed.
+Print Assumptions C12_rejects_duplicate_in_batch.
+
+Theorem C12_batch_accepts : forall args ds, Forall (fun d => d_type d = ds_type ds) args ->
+  NoDup (map d_id (ds_items ds ++ args)) ->
+  add_delegations ds args = (mkDs (ds_type ds) (ds_items ds ++ args), None).
+Proof. exact batch_accepts. Qed.
+Print Assumptions C12_batch_accepts.
+
 (* ... and nothing else is rejected by these two operations *)
 Theorem C12_set_details_accepts_exactly : forall d x,
   (exists d', set_details d x = Ok d') <-> (d_fmt d <> FRef /\ det_kind x = d_type d).
